@@ -147,7 +147,7 @@ func TestC10(t *testing.T) {
 	rapid.Check(t, func(t *rapid.T) {
 		o := sgen.DefaultGenOpts()
 		o.MinTrips, o.MinStopTimes = 1, 1
-		if tierThorough() && rapid.IntRange(0, 4).Draw(t, "large") == 0 {
+		if rapid.IntRange(0, 49).Draw(t, "large") < map[bool]int{true: 10, false: 1}[tierThorough()] {
 			o = sgen.LargeGenOpts()
 		}
 		o.ExplicitDefaults = rapid.Bool().Draw(t, "explicitElsewhere")
